@@ -159,7 +159,15 @@ def box_arg(q, nb):
     if k == "array":
         return np.array(l, dtype=int), np.array(l, dtype=int), inrange and len(l) > 0, False
     if k == "int32":
-        return np.array(l, dtype=np.int32), np.array(l, dtype=int), False, False
+        # index arrays of other integer types, as other libraries produce them; with the 8-bit types the selection is long
+        # (the same boxes again and again, more entries than the type itself can count): the reader may refuse such an
+        # array but never returns other boxes
+        dt = [np.int32, np.int16, np.int8, np.uint8, np.int8, np.uint8, np.uint16][(sum(l) + len(l)) % 7]
+        if l and (min(l) < 0 or max(l) > 127) and dt != np.int16:
+            dt = np.int32
+        if dt in (np.int8, np.uint8) and l and inrange:
+            l = (list(l) * (300 // len(l) + 1))[:[130, 300][len(l) % 2]]
+        return np.array(l, dtype=dt), np.array(l, dtype=int), False, False
     return list(l), np.array(l, dtype=int), inrange, False
 
 
